@@ -271,8 +271,8 @@ def _judge(m, name, p1, p2, rec_flag, data, off, rl, ret, exc, fired, before, re
         elif m.exists(p2):
             want_ret = F.RENAME_NEW_FILE_DOES_EXIST
         elif not m.parent_ok(p2):
+            # "the specific refusal code when a precondition fails": the parent of the new name does not exist
             want_ret = F.RENAME_NOT_PERFORMED
-            loose = True
         else:
             want_ret = F.RENAME_SUCCESS
             new[p2] = new.pop(p1)
@@ -291,7 +291,6 @@ def _judge(m, name, p1, p2, rec_flag, data, off, rl, ret, exc, fired, before, re
             want_ret = F.CREATE_DIR_CAN_NOT_BE_CREATED
         elif not m.parent_ok(p1):
             want_ret = F.CREATE_DIR_CAN_NOT_BE_CREATED
-            loose = True
         else:
             want_ret = F.CREATE_DIR_SUCCESS
             new[p1] = None
